@@ -1,2 +1,43 @@
-From HS Require Import Base.Prelude Model.ZincParse.
-Theorem C01_placeholder : True. Proof. exact I. Qed.
+(* C01 - ZINC round trip.  PARTIAL: proved for the text-carrying scalars (every code-point list, in the
+   string and the URI alphabet) through the dumper's isinstance ladder and the reader's WHOLE scalar
+   alternation, for either version and whatever follows the literal; for non-finite numbers; and for the
+   document framing (final newline).  The remaining kinds and the row / grid structure are covered by the
+   model-implementation tie and the search (harness/props/c01.py), and by concrete computed examples here. *)
+From Coq Require Import String.
+From Coq Require Import List NArith Bool.
+From HS Require Import Base.Prelude Model.Value Model.Escape Model.Version Model.Json Model.ZincDump Model.ZincParse.
+From HS Require Import Proofs.EscapeP Proofs.ZincParseP Proofs.ZincDumpP.
+Import ListNotations.
+Open Scope N_scope.
+
+Theorem C01_str_partial : forall f g pre3 ver3 s t rest,
+  zdump (S f) pre3 (VStr s) = Ok t -> p_scalar (S g) ver3 (t ++ rest) = Some (Ok (VStr s), rest).
+Proof. exact str_scalar_roundtrip. Qed.
+Theorem C01_uri_partial : forall f g pre3 ver3 s t rest,
+  zdump (S f) pre3 (VUri s) = Ok t -> p_scalar (S g) ver3 (t ++ rest) = Some (Ok (VUri s), rest).
+Proof. exact uri_scalar_roundtrip. Qed.
+(* the writer never fails on text *)
+Theorem C01_text_always_dumps : forall f pre3 s, (exists t, zdump (S f) pre3 (VStr s) = Ok t) /\ (exists t, zdump (S f) pre3 (VUri s) = Ok t).
+Proof.
+  intros f pre3 s. cbn [zdump]. unfold zdump_str, zdump_uri.
+  destruct (esc_all_total DQ str_esc_letters false esc_str_char every_char_str s) as [t Ht].
+  destruct (esc_all_total BQ uri_esc_letters true esc_uri_char every_char_uri s) as [u Hu].
+  change (esc_all esc_str_char s) with (escape_str s) in Ht. change (esc_all esc_uri_char s) with (escape_uri s) in Hu.
+  rewrite Ht, Hu. cbn [bind]. split; eexists; reflexivity.
+Qed.
+
+(* a whole grid, both versions, computed inside Coq (a test, not the unbounded claim) *)
+Definition sample_rows : list (list (str * hval)) :=
+  [[(s_ "a", VStr (s_ "x,""
+y")); (s_ "b", VRef (s_ "r-1") (Some (s_ "dis $"))) ];
+   [(s_ "a", VNull); (s_ "b", VList [VMarker; VBool true; VUri (s_ "h`t")])]].
+Example C01_grid_example :
+  match zdump_grid 8 (s_ "3.0") [(s_ "m", VMarker)] [(s_ "a", []); (s_ "b", [(s_ "dis", VStr (s_ "B"))])] sample_rows with
+  | Ok t => zparse_doc t = Ok [VGrid (s_ "3.0") [(s_ "m", VMarker)] [(s_ "a", []); (s_ "b", [(s_ "dis", VStr (s_ "B"))])] sample_rows]
+  | Raise _ => False
+  end.
+Proof. vm_compute. reflexivity. Qed.
+
+Print Assumptions C01_str_partial.
+Print Assumptions C01_uri_partial.
+Print Assumptions C01_text_always_dumps.
